@@ -58,7 +58,7 @@ fn verif_native_transparency() {
     for prog in [P1, P2] {
         let prog: &'static str = prog;
         let plain = with_timeout(20, move || { init(); let mut e = build(prog, None); e.run(); e.state }).expect("plain run");
-        for len in 0..=3usize {
+        for len in 0..=(if verif_deep() { 4usize } else { 3 }) {
             for code in 0..n.pow(len as u32) {
                 let mut c = code;
                 let mut script = String::new();
@@ -180,6 +180,175 @@ fn verif_native_progress() {
                     Some(Ok(())) => (),
                 }
             }
+        }
+    }
+    verif_out(&format!("VERIF-NATIVE name={} evaluated={} distinct={}", name, evaluated, evaluated));
+}
+
+const P4: &str = ".orig x3000\nadd r1,r1,#1\nadd r1,r1,#1\nadd r1,r1,#1\nadd r1,r1,#1\nadd r1,r1,#1\nhalt\ndata .fill x1234\nother .fill x5678\nptr .fill x3007\n";
+
+/// C15: at every PC reached by `step into k` (k = 0..=5): eval of register/immediate, label-operand (LD, LDI, LEA, ST) and
+/// base+offset forms applies the instruction to the current state — a label denotes its own address at every PC, the PC does
+/// not change; BR*, RTI, HALT, unknown traps, malformed text have no effect and do not end the session
+#[test]
+fn verif_native_eval() {
+    let name = "verif_native_eval";
+    let mut evaluated = 0u64;
+    for k in 0..=5usize {
+        let steps = if k == 0 { String::new() } else { format!("step into {}; ", k) };
+        // (eval text, check on (before, after))
+        let cases: Vec<(&str, Box<dyn Fn(&RunState, &RunState) -> Option<String> + Send>)> = vec![
+            ("add r2, r1, #3", Box::new(|b, a| if a.reg[2] == b.reg[1].wrapping_add(3) && a.pc == b.pc { None } else { Some(format!("r2={:04x} pc={:04x}", a.reg[2], a.pc)) })),
+            ("ld r0, data", Box::new(|b, a| if a.reg[0] == 0x1234 && a.pc == b.pc { None } else { Some(format!("r0={:04x}, expected the word at `data` (1234)", a.reg[0])) })),
+            ("lea r3, other", Box::new(|b, a| if a.reg[3] == 0x3007 && a.pc == b.pc { None } else { Some(format!("r3={:04x}, expected the address of `other` (3007)", a.reg[3])) })),
+            ("ldi r4, ptr", Box::new(|_b, a| if a.reg[4] == 0x5678 { None } else { Some(format!("r4={:04x}, expected 5678", a.reg[4])) })),
+            ("st r1, other", Box::new(|b, a| if a.mem[0x3007] == b.reg[1] && a.mem[0x3006] == 0x1234 { None } else { Some(format!("mem[3007]={:04x}", a.mem[0x3007])) })),
+            ("ldr r5, r6, #0", Box::new(|b, a| if a.reg[5] == b.mem[b.reg[6] as usize] { None } else { Some(format!("r5={:04x}", a.reg[5])) })),
+            ("brnzp data", Box::new(|b, a| same_state(a, b))),
+            ("rti", Box::new(|b, a| same_state(a, b))),
+            ("halt", Box::new(|b, a| same_state(a, b))),
+            ("trap x30", Box::new(|b, a| same_state(a, b))),
+            ("add r0, r0", Box::new(|b, a| same_state(a, b))),
+            ("add r0, r0, #1 r2", Box::new(|b, a| same_state(a, b))),
+            ("ld r0, nolabel", Box::new(|b, a| same_state(a, b))),
+            (".fill x1", Box::new(|b, a| same_state(a, b))),
+        ];
+        for (text, check) in cases {
+            evaluated += 1;
+            let script_a = format!("{}exit", steps);
+            let script_b = format!("{}eval {}; exit", steps, text);
+            let r = with_timeout(20, move || verif_catch(move || {
+                init();
+                let mut before = build(P4, Some(&script_a)); before.run();
+                let mut after = build(P4, Some(&script_b)); after.run();
+                check(&before.state, &after.state)
+            }));
+            let fail = |d: String| { verif_out(&format!("VERIF-COUNTEREXAMPLE name={} input=after {} executed instructions: eval {} detail={}", name, k, text, d)); std::process::exit(1); };
+            match r { None => fail("session does not terminate".to_string()), Some(Err(m)) => fail(format!("panic: {}", m)), Some(Ok(Some(d))) => fail(d), Some(Ok(None)) => () }
+        }
+    }
+    verif_out(&format!("VERIF-NATIVE name={} evaluated={} distinct={}", name, evaluated, evaluated));
+}
+
+/// reference for `step`: run until PC reaches the address following the current instruction (whole subroutine for JSR/JSRR)
+fn advance_until(state: &mut RunState, target: u16, bps: &[u16]) {
+    let mut first = true;
+    loop {
+        let instr = state.mem[state.pc as usize];
+        if instr == 0xF025 || state.check_pc_bounds() != Ordering::Equal { break; }
+        if !first && (state.pc == target || bps.contains(&state.pc)) { break; }
+        first = false;
+        state.pc += 1;
+        state.execute(instr);
+        if state.pc == target { break; }
+    }
+}
+
+/// C10: every sequence of <= 4 commands over { step, step into 1, step into 3 } on a program with a loop and a JSR/RET
+/// subroutine, followed by `exit`: the paused machine equals the reference machine (`step` = run to the following address)
+#[test]
+fn verif_native_step_over() {
+    let name = "verif_native_step_over";
+    let cmds = ["step", "step into 1", "step into 3"];
+    let n = cmds.len();
+    let mut evaluated = 0u64;
+    for len in 1..=4usize {
+        for code in 0..n.pow(len as u32) {
+            let mut c = code;
+            let mut seq = Vec::new();
+            for _ in 0..len { seq.push(c % n); c /= n; }
+            let script: String = seq.iter().map(|i| format!("{}; ", cmds[*i])).collect::<String>() + "exit";
+            evaluated += 1;
+            let s2 = script.clone();
+            let seq2 = seq.clone();
+            let r = with_timeout(20, move || verif_catch(move || {
+                init();
+                let mut e = build(P1, Some(&s2)); e.run();
+                let mut reference = build(P1, None).state;
+                for i in &seq2 {
+                    match i { 0 => { let t = reference.pc.wrapping_add(1); advance_until(&mut reference, t, &[]); } 1 => { advance(&mut reference, 1); } _ => { advance(&mut reference, 3); } }
+                }
+                (e.state, reference)
+            }));
+            let fail = |d: String| { verif_out(&format!("VERIF-COUNTEREXAMPLE name={} input=script {:?} detail={}", name, script, d)); std::process::exit(1); };
+            match r { None => fail("session does not terminate".to_string()), Some(Err(m)) => fail(format!("panic: {}", m)),
+                Some(Ok((st, reference))) => if let Some(d) = same_state(&st, &reference) { fail(format!("paused machine differs from the reference: {}", d)); } }
+        }
+    }
+    verif_out(&format!("VERIF-NATIVE name={} evaluated={} distinct={}", name, evaluated, evaluated));
+}
+
+/// a breakpoint on a ONE-instruction loop whose every execution is observable (CALL to itself pushes the PC: R7 goes down by one)
+const P6: &str = "and r0,r0,#0\n.break\nloop call loop\n";
+const P5: &str = "and r0,r0,#0\nadd r0,r0,#3\nloop .break\nadd r1,r1,#1\nadd r0,r0,#-1\nbrp loop\n.break\n.break\nhalt\n";
+
+/// reference for `continue`: run until the PC arrives at an address in `bps` (not counting the one we start on), HALT or the
+/// end of user space
+fn continue_ref(state: &mut RunState, bps: &[u16]) { advance_until(state, 0xFFFF, bps) }
+
+/// C11 (immediate return): `continue` k times on a one-instruction loop with a breakpoint on it: every `continue`
+/// executes the marked instruction exactly once (the breakpoint fires EVERY time control comes back, not every other time)
+#[test]
+fn verif_native_breakpoint_rearm() {
+    let name = "verif_native_breakpoint_rearm";
+    let mut evaluated = 0u64;
+    for k in 1..=6usize {
+        evaluated += 1;
+        let script = "continue; ".repeat(k) + "exit";
+        let s2 = script.clone();
+        let r = with_timeout(20, move || verif_catch(move || {
+            let _ = verif_catch(|| crate::features::init("stack".parse().unwrap()));
+            crate::output::Output::set_minimal(true);
+            let mut e = build(P6, Some(&s2)); e.run();
+            let mut reference = build(P6, None).state;
+            for _ in 0..k { continue_ref(&mut reference, &[0x3001]); }
+            (e.state, reference)
+        }));
+        let fail = |d: String| { verif_out(&format!("VERIF-COUNTEREXAMPLE name={} input=script {:?} detail={}", name, script, d)); std::process::exit(1); };
+        match r { None => fail("session does not terminate".to_string()), Some(Err(m)) => fail(format!("panic: {}", m)),
+            Some(Ok((st, reference))) => if let Some(d) = same_state(&st, &reference) { fail(format!("paused machine differs from the reference: {}", d)); } }
+    }
+    verif_out(&format!("VERIF-NATIVE name={} evaluated={} distinct={}", name, evaluated, evaluated));
+}
+
+/// C11: a program whose loop revisits a `.break` (plus a doubled `.break` in front of HALT) x every sequence of <= 4 commands
+/// over { continue, step into 1, break add x3003, break remove x3002, break remove x3003 } followed by `exit`: the machine
+/// always pauses BEFORE the marked instruction, resuming executes it once, removed breakpoints never pause
+#[test]
+fn verif_native_breakpoints() {
+    let name = "verif_native_breakpoints";
+    let cmds = ["continue", "step into 1", "break add x3003", "break remove x3002", "break remove x3003"];
+    let n = cmds.len();
+    let mut evaluated = 0u64;
+    for len in 1..=4usize {
+        for code in 0..n.pow(len as u32) {
+            let mut c = code;
+            let mut seq = Vec::new();
+            for _ in 0..len { seq.push(c % n); c /= n; }
+            let script: String = seq.iter().map(|i| format!("{}; ", cmds[*i])).collect::<String>() + "exit";
+            evaluated += 1;
+            let s2 = script.clone();
+            let seq2 = seq.clone();
+            let r = with_timeout(20, move || verif_catch(move || {
+                init();
+                let mut e = build(P5, Some(&s2)); e.run();
+                let mut reference = build(P5, None).state;
+                // .break marks the next statement: `loop` is statement 2 (x3002), the doubled one marks HALT (x3005)
+                let mut bps: Vec<u16> = vec![0x3002, 0x3005];
+                for i in &seq2 {
+                    match i {
+                        0 => continue_ref(&mut reference, &bps),
+                        1 => { advance(&mut reference, 1); }
+                        2 => { if !bps.contains(&0x3003) { bps.push(0x3003); } }
+                        3 => bps.retain(|a| *a != 0x3002),
+                        _ => bps.retain(|a| *a != 0x3003),
+                    }
+                }
+                (e.state, reference)
+            }));
+            let fail = |d: String| { verif_out(&format!("VERIF-COUNTEREXAMPLE name={} input=script {:?} detail={}", name, script, d)); std::process::exit(1); };
+            match r { None => fail("session does not terminate".to_string()), Some(Err(m)) => fail(format!("panic: {}", m)),
+                Some(Ok((st, reference))) => if let Some(d) = same_state(&st, &reference) { fail(format!("paused machine differs from the reference: {}", d)); } }
         }
     }
     verif_out(&format!("VERIF-NATIVE name={} evaluated={} distinct={}", name, evaluated, evaluated));
